@@ -239,6 +239,25 @@ def r04_2(ctx, rr):
                 rr.assumptions.append("succ_unchecked: value <= last element <= u is the caller's obligation (Succ::succ establishes it, R04.1)")
 
 
+@rule("R04.5", props=["C04"], floor=1, title="pred of a value above the bound u is the non-strict predecessor of u")
+def r04_5(ctx, rr):
+    F = ctx.F()
+    b = F.one(r"EliasFano<H, L> as traits::indexed_dict::PredUnchecked>::pred_unchecked$")
+    slf = ("var", "self", b.params[0]["id"])
+    hits = []
+
+    def on_node(W, n, K):
+        if cname(F, n) == "PredUnchecked::pred_unchecked" and W.debug_depth == 0:
+            args = [W.T.term(a) for a in call_args(n)]
+            above = any(a[0] == "le" and a[3] <= -1 and a[1] == ("field", slf, "u") for a in K.atoms)
+            hits.append((n, args, above, [g for g in (n.get("ga") or []) if g in ("true", "false", "STRICT")]))
+    Walker(F, b, on_node=on_node).run()
+    rec = [h for h in hits if h[2]]
+    rr.instances += 1
+    ok = len(rec) == 1 and rec[0][1][1] == ("field", slf, "u") and rec[0][3] == ["false"]
+    rr.check(ok, "EliasFano::pred_unchecked:above-u", "for a value above u, pred_unchecked (strict or not) must answer with the NON-strict predecessor of u (`self.pred_unchecked::<false>(self.u)`): every element is <= u < value; found %s" % [(tshow(h[1][1]), h[3]) for h in rec], b.span)
+
+
 @rule("R03.5", props=["C03", "C09", "C12"], floor=6, title="iterator start protocol: *_from(from) rejects from > len and touches storage only when from < len")
 def r03_5(ctx, rr):
     F = ctx.F()
